@@ -1286,19 +1286,36 @@ func checkMoveToForms(w *World, r *Report) {
 				for k := range zeros {
 					nz[k] = true
 				}
-				if call, ok := x.Cond.(*ast.CallExpr); ok {
+				// X.IsZero() holds in the then-branch, !X.IsZero() makes it hold in the else-branch
+				cond, negated := x.Cond, false
+				for {
+					if pe, ok := cond.(*ast.ParenExpr); ok {
+						cond = pe.X
+						continue
+					}
+					if ue, ok := cond.(*ast.UnaryExpr); ok && ue.Op == token.NOT {
+						cond, negated = ue.X, !negated
+						continue
+					}
+					break
+				}
+				if call, ok := cond.(*ast.CallExpr); ok {
 					if sel, ok := call.Fun.(*ast.SelectorExpr); ok && sel.Sel.Name == "IsZero" {
-						if i, ok := argIdx(x.Cond); ok {
+						if i, ok := argIdx(cond); ok {
 							nz[i] = true
 						}
 					}
 				}
-				walk(x.Body.List, nz)
+				thenZeros, elseZeros := nz, zeros
+				if negated {
+					thenZeros, elseZeros = zeros, nz
+				}
+				walk(x.Body.List, thenZeros)
 				switch e := x.Else.(type) {
 				case *ast.BlockStmt:
-					walk(e.List, zeros)
+					walk(e.List, elseZeros)
 				case *ast.IfStmt:
-					walk([]ast.Stmt{e}, zeros)
+					walk([]ast.Stmt{e}, elseZeros)
 				}
 			case *ast.BlockStmt:
 				walk(x.List, zeros)
